@@ -15,11 +15,13 @@ META = dict(
               "annealing scheme and of the adaptive proposal scale; the decision rules are regenerated from the Python AST on every "
               "run and proved equal to the model; a bit-exact PrimFloat twin and the exact model are executed inside Coq "
               "(vm_compute) against the real mixin / the real samplers",
-    level_text="Unbounded theorems over Q: for every proper configuration (annealing on, n_plateau >= 2, T0 > 1, period >= 1) and any "
-               "number of iterations the run completes, starts at T0, never increases, stays >= 1, changes only at plateau boundaries "
-               "(closed form), equals 1 once the annealing iterations are over; off => always 1.  'Every accepted configuration runs to "
-               "completion' is REFUTED on the faithful model (period 0, default annealing with n_iter=10) and characterised exactly "
-               "(total <-> not degenerate); frozen configurations (n_plateau=1 or no annealing iteration) are characterised.  Adaptive "
+    level_text="Unbounded theorems over Q: every configuration accepted by _initialize_annealing runs to completion for any number "
+               "of iterations (C19_total, full statement: since leaspy 0ec38a3 a plateau length < 1 is refused, C19_short_refused / "
+               "C19_period_positive), and accepted configurations are characterised exactly (off | proper | single plateau).  For every "
+               "proper configuration (= every accepted one with annealing on and n_plateau >= 2) the temperature starts at T0, never "
+               "increases, stays >= 1, changes only at plateau boundaries (closed form), equals 1 once the annealing iterations are "
+               "over; off => always 1.  A single plateau (n_plateau = 1) is accepted and keeps T0 for ever, even T0 < 1 (refuted "
+               "clauses, known findings).  Adaptive "
                "scale, for every acceptance history, window length >= 1, band and factor accepted by the constructor: scales stay "
                "positive (explicit envelope), change only when the step counter is a multiple of the window length, by exactly 1-f / "
                "1+f / 1 per block according to the block's acceptance rate over exactly the last L steps.",
@@ -33,7 +35,8 @@ META = dict(
 OBLIGATIONS_ANNEAL = [
     "C19_runs", "C19_start", "C19_nonincreasing", "C19_ge_one", "C19_changes_only_at_boundaries", "C19_step_at_boundaries",
     "C19_closed_form", "C19_one_after_annealing", "C19_inverse", "C19_off", "C19_n_ann",
-    "C19_total_refuted", "C19_total_iff", "C19_accepted_cases", "C19_frozen", "C19_one_after_annealing_refuted", "C19_ge_one_refuted",
+    "C19_total", "C19_period_positive", "C19_short_refused", "C19_defaults_short_refused", "C19_accepted_iff", "C19_accepted_cases",
+    "C19_accepted_proper", "C19_frozen", "C19_one_after_annealing_refuted", "C19_ge_one_refuted",
     "C19_tie_n_ann", "C19_tie_ctor", "C19_tie_init", "C19_tie_update", "C19_tie_defaults",
 ]
 OBLIGATIONS_STD = [
@@ -450,6 +453,11 @@ def oracle_anneal(run: Run, r, n_steps):
                      observed=dict(failure=r["exc"], temps=temps[:5]))
         return
     int_np = isinstance(npl, int) and not isinstance(npl, bool)
+    if (r["stage"] == "init" and r["failure"] == "InputError" and int_np and npl >= 2 and T0 > 1 and na is not None and na >= npl - 1):
+        # the guard on the plateau length must refuse exactly annealing n_iter < n_plateau - 1 (the other direction, a short
+        # configuration that is accepted, shows up below as anneal:period-zero / anneal:no-annealing-iteration-keeps-T0)
+        run.fail("anneal:refuses-proper", "a proper configuration (n_plateau >= 2, initial_temperature > 1, annealing n_iter >= n_plateau - 1) "
+                 "is refused at initialisation", inp, expected="accepted", observed=r["exc"])
     if r["stage"] == "init":
         # a refusal is fine when it is a refusal (input error); a crash on a configuration of the documented domain is not
         if r["failure"] == "Crash" and int_np and npl >= 1 and T0 > 1:
@@ -564,6 +572,13 @@ def check_anneal(run: Run):
         (10, dict(do_annealing=True, n_iter=-3, n_iter_frac=None)), (10, dict(do_annealing=True, n_iter=None, n_iter_frac=None)),
         (10, dict(do_annealing=False, n_iter=None, n_iter_frac=None)), (10, dict(do_annealing=True, n_iter=4, n_iter_frac=0.9, n_plateau=3)),
         (30, dict(do_annealing=True, n_iter=100, n_iter_frac=None, n_plateau=7, initial_temperature=3.3)),
+        # the guard on the plateau length (annealing n_iter >= n_plateau - 1), both sides of the boundary
+        (17, dict(do_annealing=True)), (18, dict(do_annealing=True)), (0, dict(do_annealing=True)),
+        (10, dict(do_annealing=True, n_iter=8, n_iter_frac=None)), (10, dict(do_annealing=True, n_iter=9, n_iter_frac=None)),
+        (10, dict(do_annealing=True, n_iter=0, n_iter_frac=None)), (10, dict(do_annealing=True, n_iter=0, n_iter_frac=None, n_plateau=2)),
+        (10, dict(do_annealing=True, n_iter=1, n_iter_frac=None, n_plateau=2)), (10, dict(do_annealing=True, n_iter=-1, n_iter_frac=None, n_plateau=2)),
+        (10, dict(do_annealing=True, n_iter=None, n_iter_frac=0.05)), (10, dict(do_annealing=True, n_iter=None, n_iter_frac=0.0, n_plateau=2)),
+        (10, dict(do_annealing=True, n_iter=0, n_iter_frac=None, n_plateau=1)),
     ]
     for n_iter, ann in directed:
         r = impl_trace(n_iter, ann)
